@@ -61,7 +61,7 @@ NSHARDS = {"quick": 16, "thorough": 16}
 TIMEOUT_S = {"quick": 280, "thorough": 1700}
 PEAK_COUNTERS = ("rounds_max",)
 REQUIRE = {"server_cases": 2000, "client_cases": 1000, "service_rounds": 30000, "hostile_bytes_received_by_hio": 300000,
-           "sibling_exact_responses": 2000, "reject_inputs_judged": 150, "controls_ok": 100, "fragmented_inputs": 1000,
+           "sibling_exact_responses": 1200, "reject_inputs_judged": 150, "controls_ok": 100, "fragmented_inputs": 1000,
            "lines_httping": 150, "lines_serving": 150, "lines_clienting": 150}
 
 _state = {"ports": None, "cov": False}
